@@ -55,7 +55,9 @@ class Table:
                 rule.fail((fn, "not-evaluable"), "%s could not be evaluated abstractly (%s): the rule cannot decide it" % (
                     short(fn), self.error or ("all %d paths incomplete: %s" % (len(self.incomplete), self.incomplete[0].note if self.incomplete else "no path"))))
             elif self.incomplete:
-                rule.note("%s: %d of %d paths could not be evaluated to the end (first: %s); they are not judged" % (
+                # fail closed: a path that cannot be evaluated to its end is not judged, and an unjudged accepting path is how a rule that
+                # quantifies over "every accepting path" would pass vacuously
+                rule.fail((fn, "not-evaluable"), "%s: %d of %d paths could not be evaluated to the end (first: %s): the rule cannot decide them" % (
                     short(fn), len(self.incomplete), len(self.incomplete) + len(self.paths), self.incomplete[0].note))
 
     def ok(self):
